@@ -164,6 +164,9 @@ func (it *j2tItem) emit(mask int) {
 		f = append(f, fx(it.res[i].out), fi(it.res[i].err))
 	}
 	out.emit(1801, f...)
+	if it.optb&7 == 0 {
+		out.emit(1807, f...) // the same observations against the J2T model of C02 (no write options: nothing is filled in)
+	}
 }
 
 // ---------------------------------------------------------------------------------------------- 1802 skip
